@@ -151,6 +151,9 @@ func NewConfig(prop string, tier string, r *core.Rand) Config {
 			c.EVM = true
 			c.KindW["deploy"], c.KindW["call"] = 1, 3
 		}
+	case "C17x":
+	}
+	switch prop {
 	case "C17":
 		c.EVM = true
 		c.KindW["deploy"], c.KindW["call"] = 2, 6
@@ -159,6 +162,27 @@ func NewConfig(prop string, tier string, r *core.Rand) Config {
 		c.Followers = r.Intn(2)
 		c.QueryMean = 0.3
 		c.Noisy = c.Followers > 0
+	}
+	// swarm: in some worlds of any property the block producer itself serves mempool/query traffic
+	// (then differences show up against the model with precise attribution) next to a quiet follower
+	if prop != "C08" && prop != "C18" && prop != "C20" && !c.Noisy && r.Chance(0.15) {
+		c.Noisy, c.NoisyLeader = true, true
+		c.SideMean = 0.5
+		if c.Followers == 0 {
+			c.Followers = 1
+		}
+	}
+	switch prop {
+	case "C06":
+		if r.Chance(0.5) {
+			c.NoisyLeader = true
+		}
+	case "C13":
+		if r.Chance(0.35) {
+			c.Noisy, c.NoisyLeader = true, true
+			c.SideMean = 0.6
+			c.Followers = 1
+		}
 	case "C19":
 		c.Followers = r.Range(1, 2)
 		c.Noisy = true
@@ -559,6 +583,10 @@ func (g *Generator) intent(h int64) Intent {
 			// a plain transfer to the contract address
 			it.Kind = "transfer"
 			it.Data = ""
+			if g.r.Chance(0.4) {
+				// with a native-sized gas limit (below the EVM's intrinsic gas unless governance set it higher)
+				it.Gas = []string{"min", "n:10000", "n:20999", "n:21000"}[g.r.Intn(4)]
+			}
 		}
 		if g.r.Chance(0.05) {
 			it.To = fmt.Sprintf("a%d", g.pickActor()) // contract tx to a plain account
@@ -739,8 +767,12 @@ func (g *Generator) NextBlock(h int64) BlockStep {
 		points = append(points, fmt.Sprintf("tx:%d", i))
 	}
 	points = append(points, "eb", "commit.pre", "commit.post", "mp.update", "end")
-	if c.Noisy && len(w.Reps) > 1 {
-		for ri := 1; ri < len(w.Reps); ri++ {
+	if c.Noisy && (len(w.Reps) > 1 || c.NoisyLeader) {
+		lo, hi := 1, len(w.Reps)
+		if c.NoisyLeader {
+			lo, hi = 0, 1
+		}
+		for ri := lo; ri < hi; ri++ {
 			for _, pt := range points {
 				locked := pt == "commit.pre" || pt == "commit.post" || pt == "mp.update"
 				if !locked {
